@@ -295,6 +295,57 @@ def run_gclass(c):
     return r
 
 
+CORNER_SRC = '''
+from pedantic import pedantic, pedantic_class
+@pedantic_class
+class K:
+    def plain(self, x: int) -> int:
+        return x
+    @staticmethod
+    def st(x: int) -> int:
+        return x
+@pedantic
+def doc_mentions(a: int) -> int:
+    \"\"\"the word @staticmethod appears in this docstring\"\"\"
+    return a
+@pedantic
+def comment_mentions(a: int) -> int:
+    # *args is mentioned in a comment
+    return a
+@pedantic
+def real_star(a: int, *args: int) -> int:
+    return a
+class Plain:
+    @pedantic
+    def m(self, x: int) -> int:
+        return x
+    @pedantic
+    def __call__(self, x: int) -> int:
+        return x
+'''
+CORNER_CALLS = [('K.plain(self=k, x=1)', lambda m: m.K.plain(self=m.K(), x=1)), ('K().plain(x=1)', lambda m: m.K().plain(x=1)),
+                ('K.st(x=1)', lambda m: m.K.st(x=1)), ('K().st(x=1)', lambda m: m.K().st(x=1)),
+                ('doc_mentions(a=1)', lambda m: m.doc_mentions(a=1)), ('comment_mentions(a=1)', lambda m: m.comment_mentions(a=1)),
+                ('real_star(a=1)', lambda m: m.real_star(a=1)), ('real_star(1, 2)', lambda m: m.real_star(1, 2)),
+                ('Plain.m(self=p, x=1)', lambda m: m.Plain.m(self=m.Plain(), x=1)), ('Plain().m(x=1)', lambda m: m.Plain().m(x=1)),
+                ('Plain()(x=1)', lambda m: m.Plain()(x=1)), ('Plain()(1)', lambda m: m.Plain()(1)),
+                ('K().plain(x="s")', lambda m: m.K().plain(x='s')), ('doc_mentions(a="s")', lambda m: m.doc_mentions(a='s'))]
+_corner = {}
+
+
+def run_corner(c):
+    """keyword calls Python accepts, on callables whose SOURCE TEXT / receiver handling trips the wrapper's heuristics;
+    only the class of the outcome is observed"""
+    if c.get('size'):
+        return {'size': len(CORNER_CALLS)}
+    if 'mod' not in _corner:
+        _corner['mod'] = make_module(CORNER_SRC, {})
+    name, f = CORNER_CALLS[c['i']]
+    r = {'name': name}
+    r['out'], r['exc'] = outcome_rep(lambda: f(_corner['mod']))
+    return r
+
+
 _named = {}
 
 
@@ -386,6 +437,8 @@ def main():
                 r = run_varargs(c)
             elif c.get('obs') == 'gclass':
                 r = run_gclass(c)
+            elif c.get('obs') == 'corner':
+                r = run_corner(c)
             elif c.get('obs') == 'named':
                 r = run_named(c)
             elif c.get('obs') == 'missing':
